@@ -209,15 +209,16 @@ CHECKS = {
              "applied to x + t v has derivative s (v_i - x_i (x.v)/(n (c+eps))) at t = 0 (s the scale, c the item power), additive noise of configured power "
              "has derivative v_i, SNR-configured noise v_i + g_i (x.v)/(n L sigma), flat fading h v; a constraint whose scale is cut out of the graph returns "
              "a different gradient whenever x_i and x.v are non-zero. Size arithmetic of Conv2d / ConvTranspose2d chains over Z: a chain of Same/Half layers "
-             "maps 2^d h to h, Same/Double layers map h to 2^u h, an autoencoder returns every admissible size; the Bourtsoulatze and the Kurka-2020 feedback encoder / decoder are "
-             "regenerated from the source and the kernel proves H -> H/4 -> H for every H = 4h; bandwidth-ratio formula. The closed-form Jacobian-vector products "
+             "maps 2^d h to h, Same/Double layers map h to 2^u h, an autoencoder returns every admissible size; the Bourtsoulatze, Kurka-2020 feedback and Tung-2022 Q / Q2 encoder / decoder pairs are "
+             "regenerated from the source and the kernel proves H -> H/4 -> H (H/16 for Tung Q) for every admissible H; bandwidth-ratio formula. The closed-form Jacobian-vector products "
              "are evaluated by the kernel against autograd in float64; the size arithmetic against every traced convolution call.",
         design="6/C19",
         note="Trusted: Coq kernel + vm_compute; Coquelicot 3.2 (Debian package) and the Coq Reals axioms ClassicalDedekindReals.sig_not_dec, sig_forall_dec, "
              "FunctionalExtensionality.functional_extensionality_dep (derivative theorems only; the size theorems are closed); translator "
              "harness/translate/archs.py. torch.autograd is trusted to implement the chain rule of the primitives: what is decided is that the stages' own code "
-             "keeps the signal path in the graph and computes the differentiated function. The end-to-end size theorem is instantiated for the Bourtsoulatze nn.Sequential pair and the Kurka nn.ModuleList pair "
-             "(GDN / PReLU / Sigmoid assumed size-preserving, checked on every traced call); residual / attention architectures (compressai blocks) are covered per traced layer and on the implementation (sizes "
+             "keeps the signal path in the graph and computes the differentiated function. The end-to-end size theorem is instantiated for the Bourtsoulatze nn.Sequential pair, the Kurka nn.ModuleList pair "
+             "(GDN / PReLU / Sigmoid assumed size-preserving) and the Tung-2022 pairs (compressai residual / attention / upsampling blocks and AFModule classified "
+             "as Same / Half / Double); every such assumption is checked on each traced call; residual / attention architectures (compressai blocks) are covered per traced layer and on the implementation (sizes "
              "{16,32,48,64} x batches {1,2,5}, call histories on one object). Output range is checked where documented (sigmoid output of Bourtsoulatze).",
         technique="Coq proof (Coquelicot derivatives; integer arithmetic of convolution sizes on the regenerated architecture) + kernel-evaluated closed-form JVP vs autograd + finite-difference / shape / gradient-reach oracle on the implementation"),
     "C20": dict(
